@@ -230,6 +230,23 @@ def run(ctx):
     # ---------------- the data transform's own Jacobians (necessary for a normalised density)
     from ..report import reuse
     from . import c04
+    # ---- the proposal's data transform is a bijection of the declared space: it has no periodic (wrapping) stage.  The wrap is many-to-one -- draws
+    #      folded back into the range carry the log-density of the unfolded point, and the density no longer integrates to one over the declared space
+    ft = repo.modules["aspire.transforms"].classes.get("FlowTransform")
+    if ft is None or "__init__" not in ft.methods:
+        ctx.unknown("C03.attach", "aspire.transforms:FlowTransform", "src/aspire/transforms.py", "FlowTransform.__init__ not found", disc="no-periodic")
+    else:
+        fi_ = ft.methods["__init__"]
+        sup_ = [c_ for c_ in walk_no_nested(fi_.node) if isinstance(c_, ast.Call) and isinstance(c_.func, ast.Attribute) and c_.func.attr == "__init__"
+                and isinstance(c_.func.value, ast.Call) and getattr(c_.func.value.func, "id", None) == "super"]
+        kw_ = {k.arg: k.value for c_ in sup_ for k in c_.keywords}
+        pv_ = kw_.get("periodic_parameters")
+        empty_ = pv_ is not None and ((isinstance(pv_, (ast.List, ast.Tuple)) and not pv_.elts) or (isinstance(pv_, ast.Constant) and pv_.value is None))
+        ctx.decide(len(sup_) == 1 and empty_, "C03.attach", fi_.ident, loc_of(fi_, sup_[0] if sup_ else None),
+                   "the flow's data transform is built without a periodic (wrapping) stage",
+                   f"FlowTransform hands periodic_parameters={ast.unparse(pv_)[:50] if pv_ is not None else 'nothing'} to the composite transform: a parameter declared periodic is then wrapped "
+                   "modulo its range instead of being mapped to the real line, a many-to-one step with zero Jacobian -- the log-density returned with a folded draw is that of the unfolded point, "
+                   "and the proposal integrates to less than one over the declared space", disc="no-periodic")
     # ---- log_prob is a function of the point: no stochastic estimator is switched on for the flow's log-determinant.  Frozen API fact (zuko):
     #      a continuous flow built with exact=False estimates the trace with random probes (Hutchinson), so two evaluations at one point differ and the
     #      log-density returned with a draw is not log_prob at that draw.  Only the constant True (or leaving the library default, True) is accepted.
@@ -363,6 +380,9 @@ MUTANTS += [
 ]
 MUTANTS += [
     M("flow matching defaults to the Hutchinson trace estimate above two dimensions", "src/aspire/flows/torch/flows.py", "kwargs.setdefault(\"hidden_features\", 4 * [100])", "kwargs.setdefault(\"hidden_features\", 4 * [100])\n        kwargs.setdefault(\"exact\", dims <= 2)", "C03.sign"),
+]
+MUTANTS += [
+    M("the flow's data transform wraps periodic parameters", "src/aspire/transforms.py", "periodic_parameters=[],\n            prior_bounds=prior_bounds,", "periodic_parameters=getattr(self, \"_periodic\", None) or [],\n            prior_bounds=prior_bounds,", "C03.attach"),
 ]
 NEUTRALS = [
     M("zuko log_prob operand order", _TF, "self._flow().log_prob(x_prime) + log_abs_det_jacobian", "log_abs_det_jacobian + self._flow().log_prob(x_prime)"),
